@@ -35,7 +35,10 @@
 //     upper bound on the probe rate.
 //   - "a single success while blocked clears the state": the clearing success is not part of the next window
 //     (DESIGN.md: "N further outcomes are needed before blocking again"; type doc: "the filter state is reset").
-//   - "let through" for a request with several addresses of a kind: at least one of them is not refused.
+//   - "let through as a probe" is judged per detector: a detector refused a request if an address that only it may
+//     act on (public QUIC/IPv4 for UDP, public TCP/IPv6 for IPv6) was refused - its probe lets every address of its
+//     kind through - or if the request has only UDP+IPv6 addresses and all of them were refused. A request whose
+//     UDP+IPv6 addresses went through with no pure address saying otherwise ends the run of refusals (weaker reading).
 //   - a dial that the swarm cancels because another address connected first counts as a failure (type doc).
 //   - bounded liveness: once the network is healed and peers are reachable, no N consecutive single-address
 //     dials of the kind fail.
@@ -96,7 +99,12 @@
 //	seeded C20-1 (ring buffer not rewound)                      system/state-mismatch/{udp,ipv6}/got-Blocked
 //	seeded C20-2 (private-only requests use up probe slots)     system/no-probe-within-window/{udp,ipv6}
 //	seeded C20b-1 (read-only detector calls HandleRequest)      system/no-probe-within-window/{udp,ipv6}
-//	seeded C20b-2 (successes skipped while Allowed)             system/state-mismatch/ipv6/got-Blocked
+//	seeded C20b-2 (successes skipped while Allowed)             system/state-mismatch/{udp,ipv6}/got-Blocked
+//	seeded C20c-1 (request counter never wraps while Allowed)   system/no-probe-within-window/udp, system/liveness/no-success-after-heal/udp
+//	seeded C20c-2 (probe countdown restarts on every failure    MISSED by S in 40 s while "let through" meant "some address of the kind went
+//	              recorded while Blocked)                       through" (a QUIC/IPv6 address dialled on behalf of the IPv6 detector hid the
+//	                                                            UDP detector's refusals); caught in 9 s since the per-detector reading
+//	                                                            above: system/no-probe-within-window/{udp,ipv6}
 //
 // C20_ONLY=<counter|swarm|exhaustive|system> (never set by ./check) makes every other stratum return at once; it exists
 // for these per-stratum sensitivity runs.
@@ -1302,15 +1310,22 @@ func checkSwarm(o *common.Outcome, w *world, ops []*opT, readOnly, noDelay bool,
 			if !enabled[k] {
 				continue
 			}
-			nK, nRef, nUnk := 0, 0, 0
+			nK, nRef, nUnk, nPure, nPureRef := 0, 0, 0, 0, 0
 			for i, a := range op.addrs {
 				if a.priv || (k == 0 && !a.quic) || (k == 1 && !a.ip6) {
 					continue
 				}
 				nK++
+				pure := len(applies(a)) == 1 // only this detector may act on it
+				if pure {
+					nPure++
+				}
 				switch obs[i] {
 				case 2:
 					nRef++
+					if pure {
+						nPureRef++
+					}
 				case 0:
 					nUnk++
 				}
@@ -1326,7 +1341,9 @@ func checkSwarm(o *common.Outcome, w *world, ops []*opT, readOnly, noDelay bool,
 				refusedRun[k] = 0
 				continue
 			}
-			if nRef == nK {
+			// the detector refused the request if an address only it may act on was refused (its probe would have let
+			// every address of the kind through), or if the request has only UDP+IPv6 addresses and all were refused
+			if nPureRef > 0 || (nPure == 0 && nRef == nK) {
 				refusedRun[k]++
 				o.Probe("request-refused-while-blocked")
 				if refusedRun[k] >= cfgN[k] {
